@@ -135,7 +135,7 @@ def Node.applyChange (n : Node) (db : Db) (c : Change) : Node Ã— Db Ã— Resp Ã— L
         let db1 := db.setValueVersion change.key old.value inConflict state old.vaddr old.kaddr old.opId
         let pend := db1.listConflictKeys change.key
         let (oldOrKey, changeVersion) : Bytes Ã— Int :=
-          if oldVersion = inConflict then (pend.getLast?.getD [], version + pend.length)
+          if oldVersion = inConflict then (pend.getLast?.getD [], vadd version pend.length)
           else (old.value, oldVersion)
         let msg := Gen.resolvePrefix ++ [32] ++ Bytes.ofNat change.opId ++ [32] ++ db.name ++ [32]
           ++ Bytes.ofInt changeVersion ++ [32] ++ key ++ [32] ++ oldOrKey ++ [32] ++ change.value
@@ -315,6 +315,7 @@ def Node.processObj (fuel : Nat) (n : Node) (sid : Sid) (req : Request) : Node Ã
         | (db', .ok, ps) => (n.setDb db', .ok, pushes ps)
         | (_, .notNumeric, _) => (n, .error Gen.notNumericMsg, [])
         | (_, .overflow, _) => (n, .error b!"Increment overflow", [])
+        | (_, .versionCap, _) => (n, .error Gen.invalidVersionMsg, [])
       else (n, .ok, n.sendToPrimary (replicateIncMsg db.name key inc))
   | .auth user password =>
     let ok := s.auth || (user = n.user && password = n.pwd)
